@@ -13,6 +13,8 @@ THEOREMS = [NS + t for t in [
     "C08_lib1_add_track",
     "C08_lib1_removed_track_stays_removed_partial",
     "C08_lib1_removed_track_stays_removed_counterexample",
+    "C08_lib1_removed_crate_stays_removed_partial",
+    "C08_lib1_removed_crate_stays_removed_counterexample",
 ]]
 ASSUMPTIONS = [
     "1.x composite: `crOps` projects a history of composite calls on the crate operations it performs; the crates "
